@@ -423,4 +423,31 @@ theorem elbo_stl_gradient_instance :
 
 end gradient
 
+/-! ## Audit (g27): non-vacuity of the hypothesis sets used above -/
+section Audit
+open Losses GenLosses LossesGen
+
+/-- the world of `gen_instance` (non-constant `split`, `choice` = prefix of the candidates) -/
+noncomputable def auditW : Lw.World ℕ Unit ℕ Unit Unit Unit ℝ :=
+  ⟨fun _ _ => (), id, fun _ => ⟨fun x _ => -(x : ℝ), fun k _ => k + 1, fun k _ => (k + 1, -((k + 1 : ℕ) : ℝ))⟩, fun k _ i => k + i, (),
+    fun _ a => a, fun _ a n => a.take n⟩
+
+
+/-- hypotheses `hd` (`Consistent`) and `hW` (`ChoiceIsPerm`) of the generated-code theorems discharged for a concrete world whose
+distribution has a NON-constant log-density (`log q(x) = −x`, sample = key + 1), and the theorems applied: equal ELBO values, 3 valid
+index rows for `b = 3, n = 2`, a non-negative contrastive loss. -/
+theorem gen_hyps_audit_instance :
+    (auditW.methods (auditW.combine () ())).Consistent ∧ auditW.ChoiceIsPerm ∧
+    elboCall auditW (ElboLoss.init (fun x => (x : ℝ)) 3 true) () () 5 = elboCall auditW (ElboLoss.init (fun x => (x : ℝ)) 3 false) () () 5 ∧
+    (∃ rows, getContrastiveIdxs auditW 0 3 2 = some rows ∧ rows.length = 3) ∧
+    ∃ v, contrastiveCall auditW (ContrastiveLoss.init (fun _ => 0) 2) () () ((List.range 3).map id) ((List.range 3).map fun _ => ()) 0
+        = some v ∧ 0 ≤ v := by
+  have hd : (auditW.methods (auditW.combine () ())).Consistent := fun _ _ => rfl
+  have hW : auditW.ChoiceIsPerm := fun _ _ => List.Perm.refl _
+  refine ⟨hd, hW, gen_elbo_stl_same_value auditW _ 3 () () 5 hd, ?_, ?_⟩
+  · obtain ⟨rows, h1, h2, _⟩ := gen_contrastive_idxs_valid auditW hW 0 3 2 (by omega)
+    exact ⟨rows, h1, h2⟩
+  · exact (gen_contrastive_nonneg auditW hW (fun _ => 0) () () 0 2).1 3 id (fun _ => ()) (by omega)
+end Audit
+
 end C17
